@@ -338,7 +338,26 @@ fn c15(out: &mut Out, thorough: bool) {
             out.report("C15/no grants => nothing authorized", Some("UNLISTED"), json!({"privilege": format!("{pr:?}")}));
         }
     }
-    out.bounded("C15/authorize picks the list of the asked privilege", "3 privileges x 11 requests x distinct grant lists", n, n);
+    // every combination of present / absent claim members: an absent member grants nothing and never borrows from another member
+    let members: [(&str, Vec<&str>); 3] = [("read", vec!["r/#"]), ("write", vec!["w/#", "x/?"]), ("delete", vec!["d/#"])];
+    for mask in 0..8u8 {
+        let mut pv = serde_json::Map::new();
+        for (i, (name, list)) in members.iter().enumerate() {
+            if mask >> i & 1 == 1 { pv.insert((*name).to_owned(), json!(list)); }
+        }
+        let cl: JwtClaims = serde_json::from_value(json!({"sub": "s", "name": "n", "exp": 0u64, "worterbuchPrivileges": Value::Object(pv)})).expect("claims");
+        for (i, pr) in [Privilege::Read, Privilege::Write, Privilege::Delete].into_iter().enumerate() {
+            for req in ["r/a", "w/a", "d/a", "x/a", "r/#", "w/#", "d/#", "#"] {
+                n += 1;
+                let got = cl.authorize(&pr, AuthCheck::Pattern(req)).is_ok();
+                let want = mask >> i & 1 == 1 && members[i].1.iter().any(|g| m_auth(&parse_pat(g), &parse_pat(req)));
+                if got != want {
+                    out.report("C15/authorize is decided by the grant list of the asked privilege", Some("UNLISTED"), json!({"members_present_mask(read,write,delete)": mask, "privilege": format!("{pr:?}"), "request": req, "got": got, "want": want}));
+                }
+            }
+        }
+    }
+    out.bounded("C15/authorize picks the list of the asked privilege", "3 privileges x 11 requests x distinct grant lists; all 8 present/absent combinations of the claim members x 3 privileges x 8 requests", n, n);
 }
 
 // ================================================================================================
@@ -974,7 +993,7 @@ fn c08(out: &mut Out) {
                     "cset" => wb.cset(t.clone(), json!("fake"), 0, me, false).await,
                     "delete" => wb.delete(t.clone(), me).await.map(|_| ()),
                     "pdelete" => wb.pdelete(t.clone(), me).await.map(|_| ()),
-                    "spub_init+spub" => { match wb.spub_init(77, t.clone(), me).await { Ok(()) => wb.spub(77, json!("fake"), me).await, Err(e) => Err(e) } }
+                    "spub_init+spub" => { let r1 = wb.spub_init(77, t.clone(), me).await; let r2 = wb.spub(77, json!("fake"), me).await; r1.and(r2) } // the sPub is sent whatever the answer to sPubInit was
                     _ => check_for_read_only_key(t, me),
                 };
                 let _ = is_pat;
@@ -1043,6 +1062,42 @@ fn c08(out: &mut Out) {
 
 // ================================================================================================
 
+/// C02 for every kind of client: the decision does not depend on who asks (ordinary session, second session, server-internal client)
+fn c02_clients(out: &mut Out) {
+    let rt = rt();
+    let clients = [("ordinary", ClientId::from_u128(42)), ("second session", ClientId::from_u128(43)), ("server-internal", worterbuch_common::INTERNAL_CLIENT_ID)];
+    let mut n = 0;
+    for (wname, writer) in clients {
+        for (sname, setter) in clients {
+            n += 1;
+            let r = catch_unwind(AssertUnwindSafe(|| rt.block_on(async {
+                let cfg = worterbuch::Config::new(None).await.expect("config");
+                let mut wb = Worterbuch::with_config(cfg);
+                let mut problems = vec![];
+                wb.cset("k".to_owned(), json!(1), 0, writer, false).await.expect("first cset");
+                wb.cset("k".to_owned(), json!(2), 1, writer, false).await.expect("second cset");
+                let r1 = wb.set("k".to_owned(), json!("plain"), setter, false).await;
+                if r1.is_ok() { problems.push(json!({"step": "plain set on a CAS-protected key", "got": "Ok", "expected": "Err(Cas)"})); }
+                let r2 = wb.cset("k".to_owned(), json!(3), 0, setter, false).await;
+                if r2.is_ok() { problems.push(json!({"step": "cset with stale version 0", "got": "Ok", "expected": "Err(CasVersionMismatch)"})); }
+                let got = wb.cget(&"k".to_owned()).map_err(|e| format!("{e:?}"));
+                if got != Ok((json!(2), 2)) { problems.push(json!({"step": "cget afterwards", "got": format!("{got:?}"), "expected": "(2, version 2)"})); }
+                let r3 = wb.cset("k".to_owned(), json!(3), 2, setter, false).await;
+                let got = wb.cget(&"k".to_owned()).map_err(|e| format!("{e:?}"));
+                if r3.is_err() || got != Ok((json!(3), 3)) { problems.push(json!({"step": "cset with the current version 2", "got": format!("{r3:?} {got:?}"), "expected": "Ok, then (3, version 3)"})); }
+                problems
+            })));
+            match r {
+                Err(_) => out.report("C02/no request panics", Some("UNLISTED"), json!({"writer": wname, "setter": sname})),
+                Ok(problems) => for p in problems {
+                    out.report("C02/the CAS decision does not depend on which client asks", Some("UNLISTED"), json!({"cas_writer": wname, "then_client": sname, "problem": p}));
+                },
+            }
+        }
+    }
+    out.bounded("C02/the CAS decision does not depend on which client asks", "3 x 3 (writer, later client) pairs over {ordinary, second session, server-internal client}: plain set, stale cset, current cset", n, n);
+}
+
 fn leaves_store(out: &mut Out) {
     // leaf contracts assumed by the store unit: trim / ls_owned / is_clean on trees built through deserialisation
     let shapes = [
@@ -1091,7 +1146,7 @@ fn main() {
     // "UNLISTED" is never accepted
     out.accepted.remove("UNLISTED");
     match prop {
-        "C01" | "C05" | "C17" | "C02" => { store_seqs(&mut out, prop, thorough, seed); leaves_store(&mut out); if prop == "C17" {
+        "C01" | "C05" | "C17" | "C02" => { store_seqs(&mut out, prop, thorough, seed); leaves_store(&mut out); if prop == "C02" { c02_clients(&mut out); } if prop == "C17" {
             // only the panics of the lock and $SYS scenarios belong to C17
             let mut tmp = Out::default();
             c06(&mut tmp, false);
